@@ -90,6 +90,8 @@ int cmd_ieee (int argc, char **argv) ;
 
 /* fsize.c (C16: RLIMIT_FSIZE, so that writes to real files fail at a chosen moment) */
 void op_fsize (char **tok, int ntok) ;
+/* tmpenv.c (C16: TMPDIR missing / a file / blocked, so that psf_open_tmpfile takes its fallback) */
+void op_tmpenv (char **tok, int ntok) ;
 
 void iolog_account (int *blocks, long *bytes) ;
 
